@@ -163,8 +163,8 @@ class Project:
 		return CLOCK_BASE + self.tick
 
 	def module_file(self, module: str) -> str:
-		"""`module` is a dotted module path or a bare name inside the package."""
-		dotted = module if '.' in module or not self.package else f'{self.package}.{module}'
+		"""`module` is a dotted module path starting with the package, or a (dotted) name inside the package."""
+		dotted = module if not self.package or module.startswith(f'{self.package}.') else f'{self.package}.{module}'
 		return os.path.join(self.root, *dotted.split('.')) + '.py'
 
 	def write_module(self, module: str, source: str) -> int:
@@ -259,7 +259,7 @@ class Project:
 	def run_subprocess(self, force: bool = False, timeout: float = 120) -> tuple[int, str]:
 		"""The real CLI in a fresh interpreter (used where a fresh process matters)."""
 		env = dict(os.environ)
-		env['PYTHONPATH'] = f"{os.path.join(common.VERIF, 'compat')}:{REPO}"
+		env['PYTHONPATH'] = f"{os.path.join(common.VERIF, 'compat')}:{REPO}:{common.VERIF}"
 		env['PYTHONDONTWRITEBYTECODE'] = '1'
 		cmd = ['/venv/bin/python', '-m', 'rogw.tranp.bin.transpile', '-c', 'config.yml', *(['-f'] if force else [])]
 		p = subprocess.run(cmd, cwd=self.root, env=env, capture_output=True, text=True, timeout=timeout)
